@@ -218,13 +218,12 @@ Proof.
     + rewrite <- (app_nil_r (flat_map field_sops (r_fields r))). rewrite expect_flat. cbn [expect]. rewrite app_nil_r. reflexivity.
 Qed.
 
-(* the owner special case: the first label starts with '$' *)
-Definition owner_leading_dollar (n : list bytes) : Prop := exists l r, n = (ch_dollar :: l) :: r.
-
-Lemma read_owner_ok n : wf_name n -> ~ owner_leading_dollar n ->
+(* the owner: Display for Label escapes '$', so the first symbol of an owner is never an
+   unescaped '$' (control entry), and a name is never the free standing '@' *)
+Lemma read_owner_ok n : wf_name n ->
   read_owner None (shape_tok false (TWord (name_shape_syms n))) = Ok n.
 Proof.
-  intros W ND. pose proof (read_name_shape false n None W) as RN.
+  intros W. pose proof (read_name_shape false n None W) as RN.
   unfold read_owner. cbn [shape_tok t_spaced t_syms] in *.
   destruct n as [|l r].
   - exact RN.
@@ -235,7 +234,7 @@ Proof.
     destruct (label_sym b) as [c|c|c] eqn:E; try exact RN.
     apply andb_true_iff in T as [T _]. apply andb_true_iff in T as [T _]. apply N.eqb_eq in T. subst c.
     destruct (b =? ch_dollar) eqn:E1.
-    + exfalso. apply ND. apply N.eqb_eq in E1. subst b. exists l, r. reflexivity.
+    + exfalso. apply N.eqb_eq in E1. subst b. vm_compute in E. discriminate.
     + assert (X : forall (A : Type) (u v : list A) (w : A),
                 match u ++ v ++ [w] with [] => true | _ :: _ => false end = false).
       { intros A u v w. destruct u; [|reflexivity]. destruct v; reflexivity. }
@@ -243,12 +242,12 @@ Proof.
 Qed.
 
 (* scan_show_record: every record over regular field kinds, written by any of the three
-   writers, reads back equal -- unless the owner's first label starts with '$' *)
-Theorem scan_show_record k schema r : wf_record schema r -> ~ owner_leading_dollar (r_owner r) ->
+   writers, reads back equal *)
+Theorem scan_show_record k schema r : wf_record schema r ->
   exists t, show_record k r = Ok t /\
     read_record schema t = Ok (r_owner r, r_ttl r, r_class r, r_type r, map fst (r_fields r)).
 Proof.
-  intros W ND. destruct (record_sops_facts (is_multi k) schema r W) as (G & B & X).
+  intros W. destruct (record_sops_facts (is_multi k) schema r W) as (G & B & X).
   destruct (tokens_reassemble k (record_sops r) G B) as (t & R & T).
   rewrite erase_record in R. exists (t ++ [ch_lf]). split.
   - unfold show_record. rewrite R. reflexivity.
@@ -259,21 +258,19 @@ Proof.
     rewrite read_fields_ok by exact Wf. reflexivity.
 Qed.
 
-Theorem scan_show_record_refuted : exists k schema r, wf_record schema r /\
-  exists t, show_record k r = Ok t /\ read_record schema t = Err E_entry.
+(* known finding txt_no_strings: a character-string list field must not be empty
+   (wf_field FCharstrs); an empty TXT is written as no token at all and cannot be read *)
+Theorem scan_show_record_txt_no_strings_refuted : exists k r,
+  exists t, show_record k r = Ok t /\ read_record [FCharstrs] t = Err E_tokens.
 Proof.
-  exists KSimple, [FUint 65535; FName], (mk_record [[36]] 3600 1 15 true [(VUint 10, Some [112]); (VName [[97]], None)]).
-  split.
-  - assert (L : forall c, c < 256 -> wf_label [c]).
-    { intros c Hc. split; [repeat constructor; exact Hc | cbn; lia]. }
-    unfold wf_record. cbn [r_owner r_ttl r_class r_type r_fields map fst].
-    split; [split; [repeat constructor; apply L; lia | cbn; lia]|].
-    split; [lia|]. split; [lia|]. split; [lia|]. split.
-    + cbn [wf_fields wf_field]. split; [lia|]. split; [discriminate|]. split; [|split; [discriminate | exact I]].
-      split; [repeat constructor; apply L; lia | cbn; lia].
-    + repeat constructor. cbn [snd]. intros [K|[]]. discriminate.
-  - eexists. split; [vm_compute; reflexivity|]. vm_compute. reflexivity.
+  exists KSimple, (mk_record [[97]] 0 1 16 true [(VCharstrs [], None)]).
+  eexists. split; [vm_compute; reflexivity|]. vm_compute. reflexivity.
 Qed.
+
+Example ex_dollar_owner : exists t,
+  show_record KSimple (mk_record [[36]] 3600 1 15 true [(VUint 10, Some [112]); (VName [[97]], None)]) = Ok t /\
+  read_record [FUint 65535; FName] t = Ok ([[36]], 3600, 1, 15, [VUint 10; VName [[97]]]).
+Proof. eexists. split; [vm_compute; reflexivity|]. vm_compute. reflexivity. Qed.
 
 (* ------------------------------------------------------------------ RFC 3597 generic form *)
 
@@ -328,12 +325,12 @@ Qed.
 
 (* generic_form_roundtrip *)
 Theorem generic_form_roundtrip k owner ttl cl rt data :
-  wf_name owner -> ~ owner_leading_dollar owner -> ttl <= 4294967295 -> cl < 65536 -> rt < 65536 ->
+  wf_name owner -> ttl <= 4294967295 -> cl < 65536 -> rt < 65536 ->
   wf_bytes data -> len data <= 65535 ->
   exists t, render k (generic_ops owner ttl cl rt data) = Ok t /\
     read_generic_record (t ++ [ch_lf]) = Ok (owner, ttl, cl, rt, data).
 Proof.
-  intros Wo ND Wt Wc Wy Wd Wl.
+  intros Wo Wt Wc Wy Wd Wl.
   pose proof (class_table _ Wc) as C. unfold class_ok in C. cbv zeta in C. apply andb_true_iff in C as [C _]. apply andb_true_iff in C as [C _].
   pose proof (rtype_table _ Wy) as T. unfold rtype_ok in T. cbv zeta in T. apply andb_true_iff in T as [T _].
   assert (G : Forall good_sop (generic_sops owner ttl cl rt data)).
